@@ -3,7 +3,6 @@
    transition system; the clauses checked on the reachable local states carry
    over. *)
 From Coq Require Import ZArith List Bool Lia Permutation.
-Set Default Timeout 60.
 From RP Require Import Common.Eqb Exec.Model Exec.Oracle Exec.Local Exec.LocalProofs Exec.Proj Exec.ProjProofs Exec.WfProofs.
 Import ListNotations.
 Local Open Scope Z_scope.
